@@ -55,6 +55,13 @@ structure Client where
   M1 : Bytes         -- get_proof_bytes
   expectM2 : Bytes   -- what verify_servers_proof compares with (as an integer)
 
+/-- `SrpClient.get_shared_secret`: `pow(B - k*v, a + u*x, n)` with `v = pow(g, x, n)` and Python's sign-correct modular
+    reduction of a negative base.  The exponent is NOT reduced (it may only ever be reduced modulo the group order). -/
+def sharedSecret (B k g x n a u : Nat) : Nat :=
+  let v := powMod g x n
+  let base : Nat := (((B : Int) - (k : Int) * (v : Int)) % (n : Int)).toNat
+  powMod base (a + u * x) n
+
 /-- everything `SrpClient` computes for one exchange: identity `I`, password `P`, the salt and the
     server public key bytes as received, the client's private key `a` -/
 def client (H : Bytes → Bytes) (G : Group) (I P salt Bb : Bytes) (a : Nat) : Client :=
@@ -64,10 +71,7 @@ def client (H : Bytes → Bytes) (G : Group) (I P salt Bb : Bytes) (a : Nat) : C
   let x := os2ip (H (salt_b ++ H (I ++ [58] ++ P)))
   let u := os2ip (H (A_b ++ Bb))
   let B := os2ip Bb
-  let v := powMod G.g x G.N
-  -- pow(B - k*v, a + u*x, n) with Python's sign-correct modular reduction of a negative base
-  let base : Nat := (((B : Int) - (G.k : Int) * (v : Int)) % (G.N : Int)).toNat
-  let S := powMod base (a + u * x) G.N
+  let S := sharedSecret B G.k G.g x G.N a u
   let K := H (padLeft (toByteArray S) G.keyLen)
   let M1 := H (hGroup H G ++ H I ++ salt_b ++ A_b ++ Bb ++ K)
   ⟨A_b, salt_b, x, u, S, K, M1, H (A_b ++ M1 ++ K)⟩
